@@ -148,6 +148,11 @@ table("tts:fontFamily", [
   ("'a,b', monospace", ("T", ("a,b", _G("monospace"))), "quoted-comma"),
   ("Verdana, default", ("T", ("Verdana", _G("default")))),
   ("X, serif", ("T", ("X", _G("serif"))), "one-letter-family"),
+  # TTML2 10.2.17 <quoted-string>/<escape>: a backslash escapes the next character, also a backslash before the closing quote
+  ('"back\\\\slash"', ("T", ("back\\slash",)), "quoted-escape"),
+  ('"end\\\\", serif', ("T", ("end\\", _G("serif"))), "quoted-escape"),
+  ("'it\\'s', \"q\\\"uote\"", ("T", ("it's", 'q"uote')), "quoted-escape"),
+  ('"serif", \'monospace\'', ("T", ("serif", "monospace")), "quoted-generic"),
 ])
 table("tts:fontSize", lens("100%", "150%", "80%", "1c", "1.5c", "2c", "2em", "0.8em", "36px", "54px", "5rh", "7.5rh", "+1c", ".5em"))
 enum("tts:fontStyle", "FontStyleType", ["normal", "italic", "oblique"])
